@@ -702,6 +702,7 @@ Definition borrow_asset (cfg : config) (st : state) (user lid pid : Z) (stable :
   | None => Err 5
   | Some c =>
   if negb (din =? a_id c) then Err 7 else
+  if negb (pr_in pr =? l_asset l) then Err 28 else      (* fix C08-F1: the pair's asset in is the lend position's asset *)
   lv <- (match calc_price cfg st (pr_out pr) aout with Ok v => Ok (Some v) | Err _ => Ok None | Panic => Panic end) ;;
   if (match lv with Some v => v <? MIN_USD | None => true end) then Err 8 else
   if has_borrow_for_pair st user pid then
@@ -1005,9 +1006,35 @@ Definition holds_C08_ltv (cfg : config) (st : state) (j : Z) : bool :=
           end
       end
   end.
-(* known-finding class 1: the position hangs on a lend position of ANOTHER asset than the pair's
-   asset in (BorrowAsset never compares lendPos.AssetID with pair.AssetIn) *)
-Definition kf_C08_1 (cfg : config) (st : state) (j : Z) : bool :=
+(* a NEW cross-pool position: BorrowAsset checks the loan against the bridged transit coins with
+   the transit asset's Ltv (the bridged quantity itself is the value of Ltv * collateral) *)
+Definition holds_C08_ltv_brd (cfg : config) (st : state) (j : Z) : bool :=
+  match zget (borrows st) j with
+  | None => false
+  | Some b =>
+      match zget (c_pairs cfg) (b_pair b) with
+      | None => false
+      | Some pr =>
+          match zget (c_rates cfg) (b_brd_denom b), calc_price cfg st (b_brd_denom b) (b_brd b), calc_price cfg st (pr_out pr) (debt_of b) with
+          | Some rt, Ok vin, Ok vout => vout * P18 <=? (r_ltv rt + 1) * vin
+          | _, _, _ => false
+          end
+      end
+  end.
+(* what BorrowAsset guarantees for the position it opens *)
+Definition holds_C08_ltv_new (cfg : config) (st : state) (j : Z) : bool :=
+  match zget (borrows st) j with
+  | None => false
+  | Some b =>
+      match zget (c_pairs cfg) (b_pair b) with
+      | None => false
+      | Some pr => if pr_inter pr then holds_C08_ltv_brd cfg st j else holds_C08_ltv cfg st j
+      end
+  end.
+(* finding C08-F1 (repaired): a position that hangs on a lend position of ANOTHER asset than the
+   pair's asset in.  BorrowAsset did not compare lendPos.AssetID with pair.AssetIn; with the guard no
+   such position exists (Proofs: Side invariant).  Kept as the regression predicate of the witness. *)
+Definition mismatched_lend (cfg : config) (st : state) (j : Z) : bool :=
   match zget (borrows st) j with
   | None => false
   | Some b =>
